@@ -376,9 +376,15 @@ impl<const P: usize> PartialEq for TVal<P> {
     }
 }
 impl<const P: usize> Eq for TVal<P> {}
+static TV_DEFAULTS: G<u64> = G::new(0);
+/// number of `TVal::default()` calls so far
+pub fn tv_default_calls() -> u64 {
+    TV_DEFAULTS.with(Cell::get)
+}
 impl<const P: usize> Default for TVal<P> {
     fn default() -> Self {
         fault::tick(Cb::VDefault);
+        TV_DEFAULTS.with(|c| c.set(c.get() + 1));
         Self::new(DEFAULT_PAYLOAD)
     }
 }
